@@ -46,6 +46,8 @@ class Cases:
         if case.startswith("T "):
             return None if out == "decl" else "declaration refused"
         e = self.exp.get(cid)
+        if isinstance(e, str) and e.endswith(" ENDLESS") and out == e:
+            return None         # a deliberately capped enumeration of a type too large to enumerate: the expected prefix
         if out in ("panic", "bad-op") or out.endswith("ENDLESS") or "OUTOFFUEL" in out:
             return f"{self.why[cid]}: implementation gave {out[-60:]!r}"
         if e is None:
@@ -305,6 +307,38 @@ def cases_c11_wide(c, all_types):
             c.add(h["tid"], f"iter 1 L:i{i} idx {BIG} 2 0 10", f"leaf1@I:{i} extra0",
                   f"iteration rooted at element {i} of a 2^63+1 element array", "wide:root")
         c.add(h["tid"], f"iter 1 L:i{2 ** 63 + 1} idx {BIG} 2 0 10", "rooterr notFound 1", "root beyond the huge array", "wide:root")
+
+
+def cases_c03_wide(c, all_types):
+    """types too large to enumerate: the START of the enumeration (first leaves, in order, then the item cap of the run)
+    and complete enumerations below deep roots; `bits63_cube`: Metadata::max_bits = 63 says Packed suffices, so every
+    leaf must be yielded as a key, none as a capacity error"""
+    by = {t["label"]: t for t in all_types}
+    q = by.get("bits63_cube")
+    if q:
+        s3 = T.tup(q["schema"])
+        top = 2 ** 21 - 1
+        first = [(0, 0, i) for i in range(5)]
+        c.add(q["tid"], "iter 3 - packed 0 1 0 4", " ".join(f"leaf3@Q:{T.packed_of(s3, p)[0]}" for p in first) + " ENDLESS",
+              "nodes::<Packed, 3>() of [[[_; 2^21]; 2^21]; 2^21] (max_bits = 63): the first leaves, in order, as keys", "wide:first")
+        c.add(q["tid"], f"iter 3 - idx {BIG} 1 0 4", " ".join(f"leaf3@I:{','.join(map(str, p))}" for p in first) + " ENDLESS",
+              "nodes::<Indices, 3>() of the 2^63-leaf cube: the first leaves, in order", "wide:first")
+        last = [(top, top, top - 2), (top, top, top - 1), (top, top, top)]
+        c.add(q["tid"], f"iter 3 L:i{top},i{top},i{top - 2} packed 0 2 0 10", f"leaf3@Q:{T.packed_of(s3, last[0])[0]} extra0",
+              "rooted at one of the last leaves of the cube, Packed keys", "wide:last")
+    w = by.get("arr_wide2")
+    if w:
+        s2 = T.tup(w["schema"])
+        c.add(w["tid"], f"iter 2 - packed 0 2 0 200000",
+              "n=140001 " + " ".join(f"leaf2@Q:{T.packed_of(s2, p)[0]}" for p in ((0, 0), (0, 1), (1, 0))) + " ... "
+              + " ".join(f"leaf2@Q:{T.packed_of(s2, p)[0]}" for p in ((69998, 1), (69999, 0), (69999, 1))) + " extra0",
+              "full Packed enumeration of [[_; 2]; 70000]: 140000 leaves, each once", "wide:full")
+    d = by.get("bits64_deep")
+    if d:
+        # max_bits = 64 > 63: Packed does NOT suffice and the property promises nothing for it; Indices do
+        first = [(0, 0, 0, i) for i in range(4)]
+        c.add(d["tid"], f"iter 4 - idx {BIG} 1 0 3", " ".join(f"leaf4@I:{','.join(map(str, p))}" for p in first) + " ENDLESS",
+              "nodes::<Indices, 4>() of the 4 x 16 bit array: the first leaves, in order", "wide:first")
 
 
 # ------------------------------------------------------------------------------- C04
@@ -570,12 +604,15 @@ def _run_typelevel(rep, prop_id, cases_fn, rng, tier, rule, assumptions, allow_b
     types = enumerable(all_types)
     pl = proof_layer(prop_id, allow_bv=allow_bv, thorough=(tier == "thorough"))
     c = cases_fn(types, rng, tier)
-    if prop_id == "C11":
+    if prop_id in ("C11", "C03"):
         for t in all_types:
             if t not in types:
                 c.lines.insert(c.n_decl, f"T d{t['tid']} {t['tid']} {t['schema_text']}")
                 c.n_decl += 1
-        cases_c11_wide(c, all_types)
+        if prop_id == "C11":
+            cases_c11_wide(c, all_types)
+        else:
+            cases_c03_wide(c, all_types)
     r = paired_run(rep, c.lines, c.oracle, c.nontrivial)
     for f in pl["failures"]:
         rep.violation("proof", {"theorem_or_translator": f, "property_module": f"MiniconfVerif.Props.{prop_id}"},
